@@ -180,6 +180,7 @@ type Result struct {
 	Notes      []string
 	Normalised string
 	Expanded   []string
+	ViewDiff   []string
 	Rules      map[string]string
 	Configs    []string
 	Pkgs       int
@@ -318,28 +319,29 @@ func (r *Result) finish(verifDir string, findings []Finding) int {
 		"seed":        r.Seed,
 		"level":       "other",
 		"coverage": map[string]any{
-			"explanation":           "static necessary-condition analysis of /repo's current source (go/packages + go/types + go/cfg); rules applied: " + strings.Join(ruleDocs, " | "),
-			"obligations":           len(r.Obls),
-			"discharged":            discharged,
-			"evaluations":           len(r.Obls),
-			"distinct_nontrivial":   nontriv,
-			"rule":                  "one obligation per (rule, construct); non-trivial = carries a guard/path/lock/writer-set requirement that was evaluated; distinct by rule+construct key",
-			"samples":               samples,
-			"per_rule":              perRule,
-			"instance_floors":       r.Floors,
-			"build_configs":         r.Configs,
-			"packages_loaded":       r.Pkgs,
-			"functions_indexed":     r.Funcs,
-			"stats":                 r.Stats,
-			"known_findings_hit":    len(knownHit),
-			"sensitivity_mutations": r.Mutations,
-			"insensitive":           r.Insens,
-			"notes":                 r.Notes,
-			"rules":                 r.Rules,
-			"normalised_view":       r.Normalised,
-			"expanded_helpers":      r.Expanded,
-			"checker_cmd":           "bin/tvc -property " + r.Prop + " -tier " + r.Tier,
-			"trusted_base":          []string{"go/types", "golang.org/x/tools v0.29.0 (go/packages, go/cfg)", "rule tables in /verif/tvc"},
+			"explanation":                 "static necessary-condition analysis of /repo's current source (go/packages + go/types + go/cfg); rules applied: " + strings.Join(ruleDocs, " | "),
+			"obligations":                 len(r.Obls),
+			"discharged":                  discharged,
+			"evaluations":                 len(r.Obls),
+			"distinct_nontrivial":         nontriv,
+			"rule":                        "one obligation per (rule, construct); non-trivial = carries a guard/path/lock/writer-set requirement that was evaluated; distinct by rule+construct key",
+			"samples":                     samples,
+			"per_rule":                    perRule,
+			"instance_floors":             r.Floors,
+			"build_configs":               r.Configs,
+			"packages_loaded":             r.Pkgs,
+			"functions_indexed":           r.Funcs,
+			"stats":                       r.Stats,
+			"known_findings_hit":          len(knownHit),
+			"sensitivity_mutations":       r.Mutations,
+			"insensitive":                 r.Insens,
+			"notes":                       r.Notes,
+			"rules":                       r.Rules,
+			"holds_only_in_expanded_view": r.ViewDiff,
+			"normalised_view":             r.Normalised,
+			"expanded_helpers":            r.Expanded,
+			"checker_cmd":                 "bin/tvc -property " + r.Prop + " -tier " + r.Tier,
+			"trusted_base":                []string{"go/types", "golang.org/x/tools v0.29.0 (go/packages, go/cfg)", "rule tables in /verif/tvc"},
 		},
 		"assumptions": []string{
 			"decides structural necessary conditions, not the runtime behaviour",
